@@ -94,7 +94,7 @@ for tgt, (alias, lit, prop_fns, method_fn) in CFG.items():
         pure=[f"aas_core_codegen.{tgt}.naming:"], use_as_callee=False,
         replay=f"native.c21:replay_intra"))
 
-# collisions *between* types are checked in each generator's verify_for_types; not under contract: examples
+# collisions *between* types: which names a target compares is checked on examples (the loops are under contract below)
 from pyvc.units import Native  # noqa: E402
 
 UNITS.append(Native(
@@ -104,3 +104,61 @@ UNITS.append(Native(
           "target's own naming functions map both names to one identifier, the run must fail with a collision error "
           "(and must not raise); if they do not, no collision may be reported.  Schemas, constants and functions are "
           "not covered", args={}, timeout_s=900))
+
+# ---- collisions *between* types: the six ``_verify_structure_name_collisions``.  Proved per iteration (body lemmas):
+# every generated structure name is either reported as colliding or recorded -- none is dropped; every error of the
+# intra-structure verifier is kept; the function returns the collected errors.  (That two recorded names differ is the
+# dict's own semantics; *which* names have to be compared per target is checked by the examples unit above.)
+KINDS = ("(1 if is_kind({x}, intermediate.Enumeration) or is_kind({x}, intermediate.AbstractClass) else "
+         "(2 if is_kind({x}, intermediate.ConcreteClass) else 0))")
+ONE_NAME = ("(1 if is_kind({x}, intermediate.Enumeration) or is_kind({x}, intermediate.AbstractClass) or "
+            "is_kind({x}, intermediate.ConcreteClass) else 0)")
+INTER = {
+    # target: (dict variable, {loop ordinal: (loop variable, expected writes per iteration or None for the intra loop)})
+    "python": ("observed_structure_names", {1: ("enum_or_cls", "1"), 2: ("our_type", None)}),
+    "typescript": ("observed_structure_names", {1: ("our_type", ONE_NAME), 2: ("our_type", None)}),
+    "csharp": ("observed_structure_names", {1: ("our_type", KINDS), 2: ("our_type", None)}),
+    "java": ("observed_structure_names", {1: ("our_type", KINDS), 2: ("our_type", None)}),
+}
+for tgt, (dvar, loops_cfg) in INTER.items():
+    mod = f"aas_core_codegen.{tgt}.lib._generate_types"
+    loops = {}
+    for ordinal, (lv, expected) in loops_cfg.items():
+        if expected is None:
+            loops[ordinal] = Loop(
+                body_ensures=[("errors-of-the-intra-structure-check-are-kept",
+                               "appended_count(errors) == (0 if collision_error is None else 1)")],
+                body_twins=[("always-an-error", "appended_count(errors) == 1")])
+        else:
+            loops[ordinal] = Loop(
+                body_ensures=[("every-structure-name-reported-or-recorded",
+                               f"appended_count(errors) + dict_writes({dvar}) == {expected.format(x=lv)}")],
+                body_twins=[("nothing-happens", f"appended_count(errors) + dict_writes({dvar}) == 0")])
+    UNITS.append(Contract(
+        f"{mod}:_verify_structure_name_collisions", ["C21"], name=f"{tgt}._verify_structure_name_collisions",
+        loops=loops, ensures=[("returns-the-collected-errors", "result is final('errors')")],
+        pure=[f"aas_core_codegen.{tgt}.naming:", f"{mod}:_human_readable_identifier"],
+        opaque=[f"{mod}:_verify_intra_structure_collisions"], use_as_callee=False))
+
+# C++ and Go: the names of one type are collected in a list first (one or two names) and checked in an inner loop over
+# that concrete list; Go adds the enumeration literals, which are global constants there (nested loops)
+for tgt, dvar, n_loops in (("cpp", "observed_type_names", 3), ("golang", "observed_structure_names", 5)):
+    mod = f"aas_core_codegen.{tgt}.lib._generate_types"
+    loops = {
+        1: Loop(body_ensures=[("every-structure-name-reported-or-recorded",
+                               f"appended_count(errors) + dict_writes({dvar}) == {KINDS.format(x='enum_or_cls')}")],
+                body_twins=[("nothing-happens", f"appended_count(errors) + dict_writes({dvar}) == 0")]),
+        n_loops: Loop(body_ensures=[("errors-of-the-intra-structure-check-are-kept",
+                                     "appended_count(errors) == (0 if collision_error is None else 1)")],
+                      body_twins=[("always-an-error", "appended_count(errors) == 1")]),
+    }
+    if tgt == "golang":
+        loops[3] = Loop()
+        loops[4] = Loop(body_ensures=[("every-literal-name-reported-or-recorded",
+                                       f"appended_count(errors) + dict_writes({dvar}) == 1")],
+                        body_twins=[("nothing-happens", f"appended_count(errors) + dict_writes({dvar}) == 0")])
+    UNITS.append(Contract(
+        f"{mod}:_verify_structure_name_collisions", ["C21"], name=f"{tgt}._verify_structure_name_collisions",
+        loops=loops, ensures=[("returns-the-collected-errors", "result is final('errors')")],
+        pure=[f"aas_core_codegen.{tgt}.naming:", f"{mod}:_human_readable_identifier"],
+        opaque=[f"{mod}:_verify_intra_structure_collisions"], use_as_callee=False))
